@@ -482,14 +482,17 @@ class Ctx:
             meta["pure"] = True
         self.obligations.append(Obligation(name, kind, (list(hyps) if pure else list(self.pc) + list(hyps)), goal, self.loc, meta))
 
-    def safety(self, kind, goal, hyps=(), what=""):
-        """safety obligation at the current source location; returns True if entailed right away"""
+    def safety(self, kind, goal, hyps=(), what="", index=None, shape=None):
+        """safety obligation at the current source location; returns True if entailed right away.
+        index/shape: the generic element index the obligation is about (row lemmas proved later on the same
+        path are instantiated at it, see Session.row_lemma)"""
         if isinstance(goal, bool):
             if goal:
                 return True
             goal = z3.BoolVal(False)
         name = f"{kind}@{self.loc or '?'}{(':' + what) if what else ''}"
-        self.obligations.append(Obligation(name, kind, list(self.pc) + list(hyps), goal, self.loc))
+        meta = {"index": index, "shape": shape} if index is not None else None
+        self.obligations.append(Obligation(name, kind, list(self.pc) + list(hyps), goal, self.loc, meta))
         return False
 
     def schema(self, label, fn):
